@@ -1494,3 +1494,7 @@ mod tests {
         }
     }
 }
+
+#[cfg(kani)]
+#[path = "/verif/kani/parquet/util/bit_util.rs"]
+mod verif_kani;
